@@ -534,4 +534,129 @@ theorem transport_transparent (Z : Zstd) (hZ : Z.Lawful) (p : Bytes) (hp : p.len
   rw [this, if_neg (by omega)]
   simp
 
+/-! ### a lawful codec: every byte escaped by a 0, the frame ended by a 1 -/
+
+def escComp (x : Bytes) : Bytes := x.flatMap (fun b => [0, b]) ++ [1]
+
+def escDec : Bytes → Bytes × Bool
+  | 0 :: b :: rest => let r := escDec rest; (b :: r.1, r.2)
+  | 1 :: _ => ([], true)
+  | _ => ([], false)
+
+def escZ : Zstd := ⟨escComp, escDec⟩
+
+theorem escDec_comp : ∀ (x t : Bytes), escDec (escComp x ++ t) = (x, true) := by
+  intro x
+  induction x with
+  | nil => intro t; simp [escComp, escDec]
+  | cons b r ih =>
+    intro t
+    have : escComp (b :: r) ++ t = 0 :: b :: (escComp r ++ t) := by simp [escComp]
+    rw [this]
+    simp only [escDec, ih]
+
+theorem escDec_truncated : ∀ (x : Bytes) (k : Nat), k < (escComp x).length →
+    (escDec ((escComp x).take k)).2 = false ∧ (escDec ((escComp x).take k)).1 <+: x := by
+  intro x
+  induction x with
+  | nil =>
+    intro k hk
+    have : k = 0 := by simp [escComp] at hk; omega
+    subst this
+    simp [escDec]
+  | cons b r ih =>
+    intro k hk
+    have e : escComp (b :: r) = 0 :: b :: escComp r := by simp [escComp]
+    rw [e] at hk ⊢
+    match k, hk with
+    | 0, _ => simp [escDec]
+    | 1, _ => simp [escDec]
+    | j + 2, hk =>
+      have := ih j (by simpa using hk)
+      simp only [List.take_succ_cons, escDec]
+      exact ⟨this.1, (List.prefix_cons_inj b).2 this.2⟩
+
+theorem escZ_lawful : escZ.Lawful := ⟨escDec_comp, escDec_truncated⟩
+
+/-- **oversize**: when the wire form is longer than `req.Size`, what raft's LimitReader lets
+through is a truncated frame; by the truncation law the receiver either gets the whole payload
+after all (only the frame's trailing bytes were cut) or an error — never other bytes -/
+theorem recv_oversize (Z : Zstd) (hZ : Z.Lawful) (p : Bytes) (hp : p.length < 9223372036854775808)
+    (h8 : 8 ≤ p.length) (hover : p.length < (sendWire Z p.length p).length) :
+    recvWire Z p.length (sendWire Z p.length p) = ⟨p, false⟩ ∨
+    (recvWire Z p.length (sendWire Z p.length p)).err = true := by
+  have hraw : (sendWire Z p.length p).take p.length = enc64 p.length ++ (Z.comp p).take (p.length - 8) := by
+    simp only [sendWire]
+    rw [List.take_append, enc64_length]
+    congr 1
+    exact List.take_of_length_le (by simp [enc64_length]; omega)
+  have hk : p.length - 8 < (Z.comp p).length := by
+    simp only [sendWire, List.length_append, enc64_length] at hover; omega
+  obtain ⟨t1, t2⟩ := hZ.truncated p (p.length - 8) hk
+  simp only [recvWire, hraw]
+  have hne : enc64 p.length ++ (Z.comp p).take (p.length - 8) ≠ [] := by simp [enc64, enc32]
+  have hl8 : ¬ (enc64 p.length ++ (Z.comp p).take (p.length - 8)).length < 8 := by simp [enc64_length]
+  rw [if_neg hne, if_neg hl8, be64_enc64_append _ _ (by omega), List.drop_left' (enc64_length _),
+    if_neg (by omega)]
+  by_cases hle : p.length ≤ (Z.dec ((Z.comp p).take (p.length - 8))).1.length
+  · left
+    rw [if_pos hle]
+    have : (Z.dec ((Z.comp p).take (p.length - 8))).1 = p := by
+      obtain ⟨t, ht⟩ := t2
+      have hl := congrArg List.length ht
+      simp only [List.length_append] at hl
+      have : t = [] := List.length_eq_zero_iff.1 (by omega)
+      rw [this, List.append_nil] at ht
+      exact ht
+    rw [this]; simp
+  · right
+    rw [if_neg hle]; simp [t1]
+
+/-! a lawful codec that compresses one payload (twenty 7s → one byte), to show the "fits"
+hypothesis of the transparency theorem is satisfiable together with the laws -/
+
+def sevens : Bytes := List.replicate 20 7
+
+def tinyZ : Zstd where
+  comp x := if x = sevens then [2] else escComp x
+  dec w := match w with
+    | 2 :: _ => (sevens, true)
+    | _ => escDec w
+
+theorem escComp_head (x : Bytes) : ∃ h t, escComp x = h :: t ∧ h ≠ 2 := by
+  cases x with
+  | nil => exact ⟨1, [], rfl, by decide⟩
+  | cons b r => exact ⟨0, b :: escComp r, by simp [escComp], by decide⟩
+
+theorem tinyZ_lawful : tinyZ.Lawful := by
+  constructor
+  · intro x t
+    by_cases hx : x = sevens
+    · simp [tinyZ, hx]
+    · obtain ⟨h, tl, e, hne⟩ := escComp_head x
+      have := escDec_comp x t
+      simp only [tinyZ, hx, if_false]
+      rw [e] at this ⊢
+      simp only [List.cons_append] at this ⊢
+      split
+      · rename_i heq; simp at heq; exact absurd heq.1 hne
+      · exact this
+  · intro x k hk
+    by_cases hx : x = sevens
+    · simp only [tinyZ, hx, if_true] at hk ⊢
+      have : k = 0 := by simpa using hk
+      subst this
+      simp [escDec]
+    · simp only [tinyZ, hx, if_false] at hk ⊢
+      have := escDec_truncated x k hk
+      obtain ⟨h, tl, e, hne⟩ := escComp_head x
+      rw [e] at this ⊢
+      cases k with
+      | zero => simpa using this
+      | succ j =>
+        simp only [List.take_succ_cons] at this ⊢
+        split
+        · rename_i heq; simp at heq; exact absurd heq.1 hne
+        · exact this
+
 end RqModel.SnapStream
